@@ -81,6 +81,21 @@ fn all_paths(n: &Node, cur: &mut Vec<String>, out: &mut Vec<(Vec<String>, bool)>
     }
 }
 
+/// the paths of the symbolic links of the tree
+fn link_paths(n: &Node, cur: &mut Vec<String>, out: &mut Vec<Vec<String>>) {
+    if let Node::Dir(es) = n {
+        for (name, c) in es {
+            cur.push(name.clone());
+            match c {
+                Node::Dir(_) => link_paths(c, cur, out),
+                Node::Link(_) => out.push(cur.clone()),
+                _ => {}
+            }
+            cur.pop();
+        }
+    }
+}
+
 fn add_links(root: &mut Node, r: &mut Rng, abs_root: &str, allow_relative: bool) {
     let mut targets = vec![];
     all_paths(root, &mut vec![], &mut targets);
@@ -260,7 +275,30 @@ pub fn run(cfg: &Cfg) {
         // two sibling / nested directories, each stripped of its own prefix: equally named files of the
         // two arguments then want the same key
         let mut sibling_strips: Option<Vec<String>> = None;
+        let mut links_of_tree: Vec<Vec<String>> = vec![];
+        link_paths(&tree, &mut vec![], &mut links_of_tree);
         match r.below(9) {
+            // a symbolic link named as an argument of its own, before or after the directory that holds
+            // it (or the root): what is reached twice is recorded once, what is next to it is not lost
+            _ if !twins && !links_of_tree.is_empty() && i % 3 == 0 => {
+                let l = r.pick(&links_of_tree).clone();
+                let parent = if l.len() > 1 { l[..l.len() - 1].join("/") } else { ".".to_string() };
+                let link = l.join("/");
+                match r.below(5) {
+                    0 => args.extend([link, parent]),
+                    1 => args.extend([link, ".".to_string()]),
+                    2 => args.extend([parent, link]),
+                    3 => args.push(link),
+                    _ => {
+                        // several links first, then the root
+                        for l in links_of_tree.iter().take(3) {
+                            args.push(l.join("/"));
+                        }
+                        args.push(".".into());
+                    }
+                }
+                sink.stat("args/link-named");
+            }
             _ if twins => {
                 let (a, b) = if r.chance(1, 2) { ("twin1", "twin2") } else { ("twin2", "twin1") };
                 sibling_strips = Some(match r.below(4) {
@@ -395,6 +433,43 @@ pub fn run(cfg: &Cfg) {
                 if let Some(c) = c {
                     sink.oracle(m.len() == c, "recording succeeded with fewer entries than regular files under the path arguments (an entry was replaced)", &op);
                 }
+            }
+        }
+        // one entry for each regular file reachable under the arguments, keyed by its normalised path, and
+        // nothing else: against a walk of the tree on disk that uses `std::fs` only (links followed, a
+        // link to one of its own ancestors skipped; a tree with a dangling link is left to the model)
+        if strips.as_ref().map_or(true, |v| v.is_empty()) && !unknown_alg {
+            fn ewalk(display: &Path, stack: &mut Vec<std::path::PathBuf>, out: &mut std::collections::BTreeSet<String>) -> Option<()> {
+                let md = std::fs::metadata(display).ok()?;
+                if md.is_file() {
+                    out.insert(path_clean::clean(display.to_str()?).to_str()?.to_string());
+                } else if md.is_dir() {
+                    let canon = std::fs::canonicalize(display).ok()?;
+                    // (a cycle is looked for only where a link is followed; a real directory below a
+                    // followed link is walked even if it was walked before)
+                    let is_link = std::fs::symlink_metadata(display).ok()?.file_type().is_symlink();
+                    if is_link && stack.contains(&canon) {
+                        return Some(());
+                    }
+                    stack.push(canon);
+                    for e in std::fs::read_dir(display).ok()? {
+                        ewalk(&display.join(e.ok()?.file_name()), stack, out)?;
+                    }
+                    stack.pop();
+                }
+                Some(())
+            }
+            std::env::set_current_dir(&abs_root).unwrap();
+            let mut want = std::collections::BTreeSet::new();
+            let known = args.iter().all(|a| ewalk(Path::new(path_clean::clean(a).to_str().unwrap_or(".")), &mut vec![], &mut want).is_some());
+            std::env::set_current_dir(&old).unwrap();
+            if let (true, Ok(Ok(m))) = (known, &res) {
+                let got: std::collections::BTreeSet<String> = m.keys().map(|k| k.value().to_string()).collect();
+                let missing: Vec<&String> = want.difference(&got).collect();
+                let extra: Vec<&String> = got.difference(&want).collect();
+                sink.oracle(missing.is_empty(), &format!("a regular file reachable under the path arguments has no entry (e.g. {:?})", missing.first()), &op);
+                sink.oracle(extra.is_empty(), &format!("an entry is recorded that is no regular file reachable under the path arguments (e.g. {:?})", extra.first()), &op);
+                sink.stat("record/walk-oracle");
             }
         }
         // every requested algorithm present in every entry
